@@ -86,6 +86,8 @@ pub struct CanonOpts {
     pub expand_aliases: bool,
     /// doc literals and inferred literals compare equal (`DocIntegerConst(1)` = `IntegerConst(1)`)
     pub merge_const_kinds: bool,
+    /// keep `any | T` as a union instead of collapsing it to `any`
+    pub no_any_absorb: bool,
 }
 
 pub fn canon(db: &DbIndex, t: &LuaType) -> String {
@@ -137,11 +139,17 @@ pub fn canon_with(db: &DbIndex, t: &LuaType, o: &CanonOpts) -> String {
         flatten_union(db, t, o, &mut ms, 0);
         ms.sort();
         ms.dedup();
+        if !o.no_any_absorb && ms.iter().any(|m| m == "Any") {
+            // `any | T` is `any` (TypeOps::Union itself says so; `any|nil` written with `|` merely keeps both members)
+            return "Any".into();
+        }
         return if ms.len() == 1 { ms.pop().unwrap() } else { format!("U({})", ms.join(" | ")) };
     }
     match t {
         LuaType::TableConst(_) => "table".into(),
         LuaType::Table => "table".into(),
+        // a per-call-site instance of a table type denotes its base type
+        LuaType::Instance(i) => canon_with(db, i.get_base(), o),
         LuaType::Ref(id) => format!("Ref({})", id.get_name()),
         LuaType::Def(id) => format!("Def({})", id.get_name()),
         LuaType::Array(a) => format!("Array({})", canon_with(db, a.get_base(), o)),
@@ -192,6 +200,28 @@ pub fn canon_with(db: &DbIndex, t: &LuaType, o: &CanonOpts) -> String {
         LuaType::TplRef(tpl) => format!("Tpl({})", tpl.get_name()),
         other => format!("{:?}", other),
     }
+}
+
+/// base type name of a literal type (aliases looked through, single-member unions unwrapped): "string" / "integer" / "boolean"
+pub fn literal_base(db: &DbIndex, t: &LuaType) -> Option<&'static str> {
+    let mut cur = t.clone();
+    for _ in 0..8 {
+        match alias_origin(db, &cur) {
+            Some(o) => cur = o,
+            None => break,
+        }
+    }
+    match &cur {
+        LuaType::DocStringConst(_) | LuaType::StringConst(_) => Some("string"),
+        LuaType::DocIntegerConst(_) | LuaType::IntegerConst(_) => Some("integer"),
+        LuaType::DocBooleanConst(_) | LuaType::BooleanConst(_) => Some("boolean"),
+        _ => None,
+    }
+}
+
+/// does `unknown` occur anywhere inside the type?
+pub fn mentions_unknown(db: &DbIndex, t: &LuaType) -> bool {
+    canon_with(db, t, &CanonOpts { no_any_absorb: true, ..CanonOpts::default() }).contains("Unknown")
 }
 
 /// canonical form of `t` with the nil alternative removed (None if nothing is left)
